@@ -32,6 +32,7 @@ type HTTPReq struct {
 	Outcome  string // filled when released
 	Status   int
 	Aborted  bool // the client's context ended while the request was parked
+	cutAt    int  // Serve only: body bytes delivered before the connection is lost (0 = all)
 	Chunked  bool // Serve only: the body is streamed without a Content-Length (Transfer-Encoding: chunked)
 	req      *http.Request
 }
@@ -45,6 +46,9 @@ type HTTPOutcome struct {
 	// Damage, for Kind serve / lost-response: the link alters what the server receives
 	DamageBody   func([]byte) []byte
 	DamageHeader func(http.Header)
+	// CutBodyAt > 0: the connection is lost after that many body bytes; the server has been told the
+	// full Content-Length and its read ends with io.ErrUnexpectedEOF
+	CutBodyAt int
 }
 
 type Fabric struct {
@@ -137,6 +141,11 @@ func (f *Fabric) RoundTrip(req *http.Request) (*http.Response, error) {
 			}
 			sr = &cp
 		}
+		if out.CutBodyAt > 0 && out.CutBodyAt < len(sr.Body) {
+			cp := *sr
+			cp.cutAt = out.CutBodyAt
+			sr = &cp
+		}
 		resp := f.Serve(sr)
 		r.Status = resp.StatusCode
 		if out.Kind == "lost-response" {
@@ -174,6 +183,10 @@ func (f *Fabric) Serve(r *HTTPReq) (resp *http.Response) {
 	}
 	sreq := httptest.NewRequest(r.Method, "http://"+r.Host+r.Path, bytes.NewReader(r.Body))
 	sreq.Header = r.Header.Clone()
+	if r.cutAt > 0 {
+		sreq.ContentLength = int64(len(r.Body))
+		sreq.Body = io.NopCloser(io.MultiReader(bytes.NewReader(r.Body[:r.cutAt]), errReader{io.ErrUnexpectedEOF}))
+	}
 	if r.Chunked {
 		sreq.ContentLength = -1
 		sreq.TransferEncoding = []string{"chunked"}
@@ -207,3 +220,7 @@ func (f *Fabric) Req(i int) *HTTPReq {
 	defer f.mu.Unlock()
 	return f.Reqs[i]
 }
+
+type errReader struct{ err error }
+
+func (e errReader) Read([]byte) (int, error) { return 0, e.err }
